@@ -1,9 +1,9 @@
 package main
 
 import (
-	"sort"
 	"encoding/json"
 	"fmt"
+	"sort"
 	"strings"
 
 	ap "github.com/go-ap/activitypub"
